@@ -1,4 +1,6 @@
 import TnVerif.Lemmas.Tools
+import TnVerif.Lemmas.Cat
+import TnVerif.Lemmas.Pad
 import TnVerif.Props.C01
 import TnVerif.Props.C02
 /-!
@@ -103,5 +105,398 @@ theorem full_dense (c : R) (shape idx : List Nat) (hne : shape ≠ []) (hi : idx
 /-- transposition of the mode order (proved in C01) -/
 theorem transpose_dense (t : Tensor R) (ht : t.WF) (idx : List Nat) (hi : idx.length = t.length) :
     t.transpose.dense idx.reverse = t.dense idx := C01.transpose_dense t ht idx hi
+
+/-! ### concatenation (`tn.cat`, tools.py:56-118) -/
+
+/-- **`tn.cat` of two operands, result structure**: for well-formed operands with the same number of modes whose
+    shapes agree on every mode but `dim`, the result is a well-formed tensor whose shape is that of the first
+    operand with `n_t + n_u` at position `dim`. -/
+theorem cat2_wf_shape (t u : Tensor R) (dim : Nat) (ht : t.WF) (hu : u.WF) (hlen : u.length = t.length)
+    (hs : ∀ k, k ≠ dim → u.shape.getD k 0 = t.shape.getD k 0) :
+    (t.cat2 u dim).WF ∧ (t.cat2 u dim).shape = t.shape.set dim (t.shape.getD dim 0 + u.shape.getD dim 0) := by
+  have hS : t.shape.set dim (t.shape.getD dim 0 + u.shape.getD dim 0) =
+      u.shape.set dim (t.shape.getD dim 0 + u.shape.getD dim 0) :=
+    (set_eq_of_off _ _ dim _ (by simp [shape_length, hlen]) hs).symm
+  have h1 := WF_linSingle t (t.shape.getD dim 0 + u.shape.getD dim 0) (embedL 0 (t.shape.getD dim 0)) dim ht
+  have h2 := WF_linSingle u (t.shape.getD dim 0 + u.shape.getD dim 0) (embedL (t.shape.getD dim 0) (u.shape.getD dim 0)) dim hu
+  have s1 := shape_linSingle t (t.shape.getD dim 0 + u.shape.getD dim 0) (embedL 0 (t.shape.getD dim 0)) dim
+  have s2 := shape_linSingle u (t.shape.getD dim 0 + u.shape.getD dim 0) (embedL (t.shape.getD dim 0) (u.shape.getD dim 0)) dim
+  have := Tensor.add_wf_shape_eq _ _ h1 h2 (by rw [s1, s2, hS])
+  exact ⟨this.1, this.2.trans s1⟩
+
+/-- **`tn.cat` of two operands decompresses to the concatenation of the decompressed operands**: along `dim` the
+    first `n_t` positions read `t` at the same index, the next `n_u` positions read `u` at the index shifted by
+    `n_t`; beyond `n_t + n_u` (outside the result's shape) the cores only hold zeros.  Any number of modes, any
+    format mix, any ranks; the other indices need not even be in range. -/
+theorem cat2_dense (t u : Tensor R) (dim : Nat) (ht : t.WF) (hu : u.WF) (hlen : u.length = t.length)
+    (hd : dim < t.length) (hs : ∀ k, k ≠ dim → u.shape.getD k 0 = t.shape.getD k 0)
+    (idx : List Nat) (hi : idx.length = t.length) :
+    (t.cat2 u dim).dense idx =
+      if idx.getD dim 0 < t.shape.getD dim 0 then t.dense idx
+      else if idx.getD dim 0 < t.shape.getD dim 0 + u.shape.getD dim 0 then
+        u.dense (idx.set dim (idx.getD dim 0 - t.shape.getD dim 0))
+      else 0 := by
+  have hS : t.shape.set dim (t.shape.getD dim 0 + u.shape.getD dim 0) =
+      u.shape.set dim (t.shape.getD dim 0 + u.shape.getD dim 0) :=
+    (set_eq_of_off _ _ dim _ (by simp [shape_length, hlen]) hs).symm
+  have h1 := WF_linSingle t (t.shape.getD dim 0 + u.shape.getD dim 0) (embedL 0 (t.shape.getD dim 0)) dim ht
+  have h2 := WF_linSingle u (t.shape.getD dim 0 + u.shape.getD dim 0) (embedL (t.shape.getD dim 0) (u.shape.getD dim 0)) dim hu
+  have s1 := shape_linSingle t (t.shape.getD dim 0 + u.shape.getD dim 0) (embedL 0 (t.shape.getD dim 0)) dim
+  have s2 := shape_linSingle u (t.shape.getD dim 0 + u.shape.getD dim 0) (embedL (t.shape.getD dim 0) (u.shape.getD dim 0)) dim
+  have e1 := dense_linEmbed t (t.shape.getD dim 0 + u.shape.getD dim 0) 0 dim idx hd hi
+  have e2 := dense_linEmbed u (t.shape.getD dim 0 + u.shape.getD dim 0) (t.shape.getD dim 0) dim idx (by omega) (by omega)
+  have hadd := Tensor.add_dense_eq _ _ h1 h2 (by rw [s1, s2, hS]) idx
+  have hcat : (t.cat2 u dim).dense idx =
+      ((t.linModes (singleMap t.length dim (t.shape.getD dim 0 + u.shape.getD dim 0, embedL 0 (t.shape.getD dim 0)))).add
+        (u.linModes (singleMap u.length dim (t.shape.getD dim 0 + u.shape.getD dim 0,
+          embedL (t.shape.getD dim 0) (u.shape.getD dim 0))))).dense idx := rfl
+  rw [hcat, hadd, e1, e2]
+  have hself : idx.set dim (idx.getD dim 0 - 0) = idx := by
+    rw [Nat.sub_zero]; exact set_getD_self idx dim (by omega)
+  by_cases c1 : idx.getD dim 0 < t.shape.getD dim 0
+  · have n2 : ¬ (t.shape.getD dim 0 ≤ idx.getD dim 0 ∧ idx.getD dim 0 < t.shape.getD dim 0 + u.shape.getD dim 0) := by omega
+    have p1 : 0 ≤ idx.getD dim 0 ∧ idx.getD dim 0 < 0 + t.shape.getD dim 0 := by omega
+    rw [if_pos p1, if_neg n2, if_pos c1, hself, add_zero]
+  · have n1 : ¬ (0 ≤ idx.getD dim 0 ∧ idx.getD dim 0 < 0 + t.shape.getD dim 0) := by omega
+    rw [if_neg n1, if_neg c1, zero_add]
+    by_cases c2 : idx.getD dim 0 < t.shape.getD dim 0 + u.shape.getD dim 0
+    · rw [if_pos ⟨by omega, c2⟩, if_pos c2]
+    · rw [if_neg (fun h => c2 h.2), if_neg c2]
+
+/-- **`tn.cat` of any number of operands, result structure** (`Tensor.catN` follows the Python loop): for
+    well-formed operands with the same number of modes whose shapes agree with the first operand's on every mode
+    but `d`, the result is well-formed and has the first operand's shape with the TOTAL size at position `d`. -/
+theorem catN_wf_shape (t0 : Tensor R) (rest : List (Tensor R)) (d : Nat)
+    (hwf : ∀ t ∈ t0 :: rest, t.WF) (hlen : ∀ t ∈ rest, t.length = t0.length) (hd : d < t0.length)
+    (hs : ∀ t ∈ rest, ∀ k, k ≠ d → t.shape.getD k 0 = t0.shape.getD k 0) :
+    (Tensor.catN (t0 :: rest) d).WF ∧
+    (Tensor.catN (t0 :: rest) d).shape = t0.shape.set d (((t0 :: rest).map (catSize d)).sum) := by
+  cases rest with
+  | nil =>
+    refine ⟨hwf t0 List.mem_cons_self, ?_⟩
+    simp only [Tensor.catN, List.map_cons, List.map_nil, List.sum_cons, List.sum_nil, Nat.add_zero, catSize]
+    exact (set_getD_self _ d (by simpa [shape_length] using hd)).symm
+  | cons t1 r =>
+    have hall : ∀ t ∈ t1 :: r, t.WF ∧ t.length = t0.length ∧ d < t0.length ∧
+        t.shape.set d (((t0 :: t1 :: r).map (catSize d)).sum) = t0.shape.set d (((t0 :: t1 :: r).map (catSize d)).sum) := by
+      intro t ht
+      exact ⟨hwf t (List.mem_cons_of_mem _ ht), hlen t ht, hd,
+        set_eq_of_off _ _ d _ (by simp [shape_length, hlen t ht]) (hs t ht)⟩
+    have := catGo_spec d (((t0 :: t1 :: r).map (catSize d)).sum) t0.length _ (t1 :: r)
+      (t0.embedDim (((t0 :: t1 :: r).map (catSize d)).sum) 0 d) (catSize d t0)
+      (WF_embedDim _ _ _ _ (hwf t0 List.mem_cons_self)) (shape_embedDim _ _ _ _) hall
+    exact ⟨this.1, this.2.1⟩
+
+/-- with two or more operands the result decompresses to the sum of the operands' block contributions -/
+theorem catN_dense_sum (t0 t1 : Tensor R) (r : List (Tensor R)) (d : Nat)
+    (hwf : ∀ t ∈ t0 :: t1 :: r, t.WF) (hlen : ∀ t ∈ t1 :: r, t.length = t0.length) (hd : d < t0.length)
+    (hs : ∀ t ∈ t1 :: r, ∀ k, k ≠ d → t.shape.getD k 0 = t0.shape.getD k 0)
+    (idx : List Nat) (hi : idx.length = t0.length) :
+    (Tensor.catN (t0 :: t1 :: r) d).dense idx = catSum d idx 0 (t0 :: t1 :: r) := by
+  have hall : ∀ t ∈ t1 :: r, t.WF ∧ t.length = t0.length ∧ d < t0.length ∧
+      t.shape.set d (((t0 :: t1 :: r).map (catSize d)).sum) = t0.shape.set d (((t0 :: t1 :: r).map (catSize d)).sum) := by
+    intro t ht
+    exact ⟨hwf t (List.mem_cons_of_mem _ ht), hlen t ht, hd,
+      set_eq_of_off _ _ d _ (by simp [shape_length, hlen t ht]) (hs t ht)⟩
+  have := (catGo_spec d (((t0 :: t1 :: r).map (catSize d)).sum) t0.length _ (t1 :: r)
+    (t0.embedDim (((t0 :: t1 :: r).map (catSize d)).sum) 0 d) (catSize d t0)
+    (WF_embedDim _ _ _ _ (hwf t0 List.mem_cons_self)) (shape_embedDim _ _ _ _) hall).2.2 idx hi
+  have hc : (Tensor.catN (t0 :: t1 :: r) d).dense idx =
+      (catGo d (((t0 :: t1 :: r).map (catSize d)).sum) (t0.embedDim (((t0 :: t1 :: r).map (catSize d)).sum) 0 d)
+        (catSize d t0) (t1 :: r)).dense idx := rfl
+  rw [hc, this, dense_embedDim t0 _ 0 d idx hd hi]
+  show _ = (if 0 ≤ idx.getD d 0 ∧ idx.getD d 0 < 0 + catSize d t0 then t0.dense (idx.set d (idx.getD d 0 - 0)) else 0)
+      + catSum d idx (0 + catSize d t0) (t1 :: r)
+  simp only [Nat.zero_add]; rfl
+
+/-- **`tn.cat` of any number of operands decompresses to the concatenation of the decompressed operands**: if
+    `idx[d]` lies in the block of operand `k` — at or after the sum of the sizes of the operands before it, before
+    that sum plus its own size — the entry is operand `k`'s entry at the index shifted back by that sum.
+    Any number of operands (one included: the clone), modes, format mix, ranks. -/
+theorem catN_dense (t0 : Tensor R) (rest : List (Tensor R)) (d : Nat)
+    (hwf : ∀ t ∈ t0 :: rest, t.WF) (hlen : ∀ t ∈ rest, t.length = t0.length) (hd : d < t0.length)
+    (hs : ∀ t ∈ rest, ∀ k, k ≠ d → t.shape.getD k 0 = t0.shape.getD k 0)
+    (idx : List Nat) (hi : idx.length = t0.length) (k : Nat) (hk : k < (t0 :: rest).length)
+    (hlo : (((t0 :: rest).take k).map (catSize d)).sum ≤ idx.getD d 0)
+    (hhi : idx.getD d 0 < (((t0 :: rest).take (k + 1)).map (catSize d)).sum) :
+    (Tensor.catN (t0 :: rest) d).dense idx =
+      ((t0 :: rest)[k]).dense (idx.set d (idx.getD d 0 - (((t0 :: rest).take k).map (catSize d)).sum)) := by
+  cases rest with
+  | nil =>
+    have hk0 : k = 0 := by simpa using hk
+    subst hk0
+    simp only [Tensor.catN, List.take_zero, List.map_nil, List.sum_nil, Nat.sub_zero, List.getElem_cons_zero]
+    rw [set_getD_self idx d (by omega)]
+  | cons t1 r =>
+    rw [catN_dense_sum t0 t1 r d hwf hlen hd hs idx hi]
+    have := catSum_block d idx (t0 :: t1 :: r) 0 k hk (by omega) (by omega)
+    simpa only [Nat.zero_add] using this
+
+/-- with two or more operands, positions at or beyond the total size along `d` (outside the result's shape) hold zeros -/
+theorem catN_dense_outside (t0 t1 : Tensor R) (r : List (Tensor R)) (d : Nat)
+    (hwf : ∀ t ∈ t0 :: t1 :: r, t.WF) (hlen : ∀ t ∈ t1 :: r, t.length = t0.length) (hd : d < t0.length)
+    (hs : ∀ t ∈ t1 :: r, ∀ k, k ≠ d → t.shape.getD k 0 = t0.shape.getD k 0)
+    (idx : List Nat) (hi : idx.length = t0.length)
+    (hout : ((t0 :: t1 :: r).map (catSize d)).sum ≤ idx.getD d 0) :
+    (Tensor.catN (t0 :: t1 :: r) d).dense idx = 0 := by
+  rw [catN_dense_sum t0 t1 r d hwf hlen hd hs idx hi]
+  exact catSum_outside d idx _ 0 (by omega)
+
+/-- the two-operand model `cat2` and the loop model `catN` decompress to the same array -/
+theorem catN_two_eq_cat2 (t u : Tensor R) (dim : Nat) (ht : t.WF) (hu : u.WF) (hlen : u.length = t.length)
+    (hd : dim < t.length) (hs : ∀ k, k ≠ dim → u.shape.getD k 0 = t.shape.getD k 0)
+    (idx : List Nat) (hi : idx.length = t.length) :
+    (Tensor.catN [t, u] dim).dense idx = (t.cat2 u dim).dense idx := by
+  have hwf : ∀ x ∈ [t, u], x.WF := by intro x hx; simp at hx; rcases hx with rfl | rfl <;> assumption
+  have hl : ∀ x ∈ [u], x.length = t.length := by intro x hx; simp at hx; subst hx; exact hlen
+  have hss : ∀ x ∈ [u], ∀ k, k ≠ dim → x.shape.getD k 0 = t.shape.getD k 0 := by
+    intro x hx; simp at hx; subst hx; exact hs
+  rw [catN_dense_sum t u [] dim hwf hl hd hss idx hi, cat2_dense t u dim ht hu hlen hd hs idx hi]
+  have hself : idx.set dim (idx.getD dim 0 - 0) = idx := by
+    rw [Nat.sub_zero]; exact set_getD_self idx dim (by omega)
+  simp only [catSum, catSize, Nat.zero_add, add_zero, hself]
+  by_cases c1 : idx.getD dim 0 < t.shape.getD dim 0
+  · have n2 : ¬ (t.shape.getD dim 0 ≤ idx.getD dim 0 ∧ idx.getD dim 0 < t.shape.getD dim 0 + u.shape.getD dim 0) := by omega
+    have p1 : 0 ≤ idx.getD dim 0 ∧ idx.getD dim 0 < t.shape.getD dim 0 := by omega
+    rw [if_pos p1, if_neg n2, if_pos c1, add_zero]
+  · have n1 : ¬ (0 ≤ idx.getD dim 0 ∧ idx.getD dim 0 < t.shape.getD dim 0) := by omega
+    rw [if_neg n1, if_neg c1, zero_add]
+    by_cases c2 : idx.getD dim 0 < t.shape.getD dim 0 + u.shape.getD dim 0
+    · rw [if_pos ⟨by omega, c2⟩, if_pos c2]
+    · rw [if_neg (fun h => c2 h.2), if_neg c2]
+
+/-! #### the guards of `tn.cat` (`Tensor.cat : … → Except CatErr (Tensor R)` models them) -/
+
+/-- no operand: Python fails (`ts[0]` on an empty tuple, or `result` never assigned) -/
+theorem cat_empty (dim : Int) : Tensor.cat ([] : List (Tensor R)) dim = .error .empty := rfl
+
+/-- one operand: the clone, whatever `dim` is (`dim` is not even range-checked) -/
+theorem cat_single (t : Tensor R) (dim : Int) : Tensor.cat [t] dim = .ok t := rfl
+
+/-- **the guards pass exactly on the inputs of `catN_dense`**: with two or more operands, `dim ∈ [-N, N)`
+    (negative counts from the end), all operands with `N` modes and shapes equal to the first operand's off the
+    normalised mode `d`, `tn.cat` returns what the loop computes. -/
+theorem cat_ok (t0 t1 : Tensor R) (r : List (Tensor R)) (dim : Int) (d : Nat)
+    (hdv : (d : Int) = if dim < 0 then dim + t0.length else dim) (hd : d < t0.length)
+    (hlen : ∀ t ∈ t1 :: r, t.length = t0.length)
+    (hs : ∀ t ∈ t1 :: r, ∀ k, k ≠ d → t.shape.getD k 0 = t0.shape.getD k 0) :
+    Tensor.cat (t0 :: t1 :: r) dim = .ok (Tensor.catN (t0 :: t1 :: r) d) := by
+  unfold Tensor.cat
+  dsimp only
+  rw [(normInt_eq_ok_iff dim t0.length d).mpr ⟨hdv, hd⟩]
+  dsimp only
+  have c1 : ¬ ((t1 :: r).any (fun t => (List.range t0.length).any fun n => n != d && decide (t.length ≤ n)) = true) := by
+    simp only [List.any_eq_true, List.mem_range, Bool.and_eq_true, bne_iff_ne, decide_eq_true_eq, not_exists, not_and]
+    intro t ht n hn _ hle
+    have := hlen t ht; omega
+  have c2 : ¬ ((t1 :: r).any (fun t => (List.range t0.length).any fun n =>
+      n != d && t.shape.getD n 0 != t0.shape.getD n 0) = true) := by
+    simp only [List.any_eq_true, List.mem_range, Bool.and_eq_true, bne_iff_ne, not_exists, not_and]
+    intro t ht n _ hne hbad
+    exact hbad (hs t ht n hne)
+  have c3 : ¬ ((t1 :: r).any (fun t => t.length != t0.length) = true) := by
+    simp only [List.any_eq_true, bne_iff_ne, not_exists, not_and]
+    intro t ht hne
+    exact hne (hlen t ht)
+  rw [if_neg c1, if_neg c2, if_neg c3]
+
+/-- conversely, whenever `tn.cat` of two or more operands returns, the operands met those conditions (the guard
+    plus the later failures leave no other way out) and the result is the loop's -/
+theorem cat_ok_inv (t0 t1 : Tensor R) (r : List (Tensor R)) (dim : Int) (res : Tensor R)
+    (h : Tensor.cat (t0 :: t1 :: r) dim = .ok res) :
+    ∃ d : Nat, ((d : Int) = if dim < 0 then dim + t0.length else dim) ∧ d < t0.length ∧
+      (∀ t ∈ t1 :: r, t.length = t0.length) ∧
+      (∀ t ∈ t1 :: r, ∀ k, k ≠ d → t.shape.getD k 0 = t0.shape.getD k 0) ∧
+      res = Tensor.catN (t0 :: t1 :: r) d := by
+  unfold Tensor.cat at h
+  dsimp only at h
+  cases hn : normInt dim t0.length with
+  | error e => rw [hn] at h; cases h
+  | ok d =>
+    rw [hn] at h
+    obtain ⟨hdv, hd⟩ := (normInt_eq_ok_iff dim t0.length d).mp hn
+    dsimp only at h
+    split at h
+    · cases h
+    · split at h
+      · cases h
+      · split at h
+        · cases h
+        · rename_i c1 c2 c3
+          have hlen : ∀ t ∈ t1 :: r, t.length = t0.length := by
+            intro t ht
+            by_contra hne
+            apply c3
+            simp only [List.any_eq_true, bne_iff_ne]
+            exact ⟨t, ht, hne⟩
+          refine ⟨d, hdv, hd, hlen, ?_, ?_⟩
+          · intro t ht k hk
+            by_cases hkN : k < t0.length
+            · by_contra hne
+              apply c2
+              simp only [List.any_eq_true, List.mem_range, Bool.and_eq_true, bne_iff_ne]
+              exact ⟨t, ht, k, hkN, hk, hne⟩
+            · have e1 : t.shape.getD k 0 = 0 := by
+                simp [List.getD_eq_getElem?_getD, shape_length, hlen t ht, Nat.le_of_not_lt hkN]
+              have e2 : t0.shape.getD k 0 = 0 := by
+                simp [List.getD_eq_getElem?_getD, shape_length, Nat.le_of_not_lt hkN]
+              rw [e1, e2]
+          · injection h with h; exact h.symm
+
+/-- the explicit `ValueError`: operands with the right number of modes, one of which differs from the first operand
+    in the size of a mode other than `d` -/
+theorem cat_shape_error (t0 t1 : Tensor R) (r : List (Tensor R)) (dim : Int) (d : Nat)
+    (hdv : (d : Int) = if dim < 0 then dim + t0.length else dim) (hd : d < t0.length)
+    (hlen : ∀ t ∈ t1 :: r, t.length = t0.length)
+    (hbad : ∃ t ∈ t1 :: r, ∃ k, k < t0.length ∧ k ≠ d ∧ t.shape.getD k 0 ≠ t0.shape.getD k 0) :
+    Tensor.cat (t0 :: t1 :: r) dim = .error .shape := by
+  unfold Tensor.cat
+  dsimp only
+  rw [(normInt_eq_ok_iff dim t0.length d).mpr ⟨hdv, hd⟩]
+  dsimp only
+  have c1 : ¬ ((t1 :: r).any (fun t => (List.range t0.length).any fun n => n != d && decide (t.length ≤ n)) = true) := by
+    simp only [List.any_eq_true, List.mem_range, Bool.and_eq_true, bne_iff_ne, decide_eq_true_eq, not_exists, not_and]
+    intro t ht n hn _ hle
+    have := hlen t ht; omega
+  have c2 : (t1 :: r).any (fun t => (List.range t0.length).any fun n =>
+      n != d && t.shape.getD n 0 != t0.shape.getD n 0) = true := by
+    obtain ⟨t, ht, k, hk, hkd, hne⟩ := hbad
+    simp only [List.any_eq_true, List.mem_range, Bool.and_eq_true, bne_iff_ne]
+    exact ⟨t, ht, k, hk, hkd, hne⟩
+  rw [if_neg c1, if_pos c2]
+
+/-- `dim` outside `[-N, N)`: `np.delete` raises -/
+theorem cat_dim_error (t0 t1 : Tensor R) (r : List (Tensor R)) (dim : Int)
+    (h : dim < -(t0.length : Int) ∨ (t0.length : Int) ≤ dim) :
+    Tensor.cat (t0 :: t1 :: r) dim = .error .dimRange := by
+  unfold Tensor.cat
+  dsimp only
+  cases hn : normInt dim t0.length with
+  | error e => rfl
+  | ok d =>
+    obtain ⟨hdv, hd⟩ := (normInt_eq_ok_iff dim t0.length d).mp hn
+    split at hdv <;> omega
+
+/-! #### non-vacuity: three mixed-format operands of shapes [2,2], [3,2], [2,2] concatenated along mode 0 -/
+section cat_nonvacuous
+/-- a 2-mode tensor of shape [3,2]: TT core without factor, then a CP-free TT core with a factor -/
+def exV : Tensor Int :=
+  [ { core := .tt 1 3 2 (fun _ j b => (j : Int) * 3 - b), U := none },
+    { core := .tt 2 1 1 (fun a _ _ => (a : Int) + 2), U := some { rows := 2, cols := 1, f := fun i _ => (i : Int) - 3 } } ]
+
+theorem exV_wf : exV.WF := by simp [exV, Tensor.WF, Tensor.WFfrom, TMode.ok, Core.rl, Core.rr, Core.spatial]
+theorem exT_wf : C02.exT.WF := by simp [C02.exT, Tensor.WF, Tensor.WFfrom, TMode.ok, Core.rl, Core.rr, Core.spatial]
+theorem exU_wf : C02.exU.WF := by simp [C02.exU, Tensor.WF, Tensor.WFfrom, TMode.ok, Core.rl, Core.rr, Core.spatial]
+
+theorem ex_off (x : Tensor Int) (hx : x.shape.getD 1 0 = 2) (hl : x.length = 2) :
+    ∀ k, k ≠ 0 → x.shape.getD k 0 = C02.exT.shape.getD k 0 := by
+  intro k hk
+  match k with
+  | 0 => exact absurd rfl hk
+  | 1 => rw [hx]; rfl
+  | k + 2 =>
+    have h1 : x.shape.length ≤ k + 2 := by rw [shape_length, hl]; omega
+    have h2 : C02.exT.shape.length ≤ k + 2 := by rw [shape_length]; simp [C02.exT]
+    rw [List.getD_eq_getElem?_getD, List.getD_eq_getElem?_getD, List.getElem?_eq_none h1, List.getElem?_eq_none h2]
+
+example : (C02.exT.cat2 exV 0).dense [3, 1] = exV.dense [1, 1] := by
+  have := cat2_dense C02.exT exV 0 exT_wf exV_wf rfl (by decide) (ex_off exV rfl rfl) [3, 1] rfl
+  simpa [C02.exT, exV, Tensor.shape, TMode.n, Core.spatial] using this
+
+example : (C02.exT.cat2 exV 0).WF ∧ (C02.exT.cat2 exV 0).shape = [5, 2] := by
+  have := cat2_wf_shape C02.exT exV 0 exT_wf exV_wf rfl (ex_off exV rfl rfl)
+  simpa [C02.exT, exV, Tensor.shape, TMode.n, Core.spatial] using this
+
+/-- three operands; index 3 along mode 0 lies in the block of the middle operand (sizes 2, 3, 2) -/
+example : (Tensor.catN [C02.exT, exV, C02.exU] 0).dense [3, 1] = exV.dense [1, 1] := by
+  have hwf : ∀ t ∈ [C02.exT, exV, C02.exU], t.WF := by
+    intro t ht; simp at ht; rcases ht with rfl | rfl | rfl
+    · exact exT_wf
+    · exact exV_wf
+    · exact exU_wf
+  have hlen : ∀ t ∈ [exV, C02.exU], t.length = C02.exT.length := by
+    intro t ht; simp at ht; rcases ht with rfl | rfl <;> rfl
+  have hs : ∀ t ∈ [exV, C02.exU], ∀ k, k ≠ 0 → t.shape.getD k 0 = C02.exT.shape.getD k 0 := by
+    intro t ht; simp at ht; rcases ht with rfl | rfl
+    · exact ex_off exV rfl rfl
+    · exact ex_off C02.exU rfl rfl
+  have := catN_dense C02.exT [exV, C02.exU] 0 hwf hlen (by decide) hs [3, 1] rfl 1 (by decide)
+    (by simp [catSize, C02.exT, Tensor.shape, TMode.n]) (by simp [catSize, C02.exT, exV, Tensor.shape, TMode.n, Core.spatial])
+  simpa [catSize, C02.exT, Tensor.shape, TMode.n] using this
+
+/-- the guarded routine accepts these operands with `dim = -2` -/
+example : Tensor.cat [C02.exT, exV, C02.exU] (-2) = .ok (Tensor.catN [C02.exT, exV, C02.exU] 0) := by
+  apply cat_ok _ _ _ (-2) 0 (by decide) (by decide)
+  · intro t ht; simp at ht; rcases ht with rfl | rfl <;> rfl
+  · intro t ht; simp at ht; rcases ht with rfl | rfl
+    · exact ex_off exV rfl rfl
+    · exact ex_off C02.exU rfl rfl
+end cat_nonvacuous
+
+/-! ### padding (`tn.pad`, tools.py:529-609) -/
+
+/-- **`tn.pad` with zeros, evaluated**: at an index that lies inside the original box on every padded mode the
+    padded tensor reads the original entry, everywhere else it is 0 (`pad0_dense` with the embedding matrices
+    evaluated by `embed_row`). -/
+theorem pad0_dense_explicit (t : Tensor R) (sizes : List (Option Nat)) (idx : List Nat) (hd : sizes.length = t.length)
+    (hi : idx.length = t.length) :
+    (t.pad0 sizes).dense idx = if padInside sizes t.shape idx = true then t.dense idx else 0 :=
+  dense_pad0 t sizes idx hd hi
+
+/-- zero padding returns a well-formed tensor with the new sizes on the padded modes -/
+theorem pad0_wf_shape (t : Tensor R) (sizes : List (Option Nat)) (ht : t.WF) (hd : sizes.length = t.length) :
+    (t.pad0 sizes).WF ∧ (t.pad0 sizes).shape = padShape sizes t.shape :=
+  ⟨WF_pad0 t sizes ht, shape_pad0 sizes t hd⟩
+
+section padC
+variable {K : Type} [CommRing K]
+
+/-- **`tn.pad` with a non-zero fill value `c`**: at an index inside the original box (on every padded mode) the
+    result reads the original entry, everywhere else it reads `c` — for every format mix, any set of padded modes.
+    `ρ`, `sgn` are what the scalar multiplication `fill_value * outside` uses (`|c|^(1/N)` and `sign c`; contract
+    `sgn · ρ^N = c`).  `hge` (new sizes not smaller than the old ones) is what Python needs not to raise; the
+    equation itself does not depend on it.  (Python takes this branch only for `c ≠ 0`; for `c = 0` the statement is
+    `pad0_dense_explicit`.) -/
+theorem padC_dense (t : Tensor K) (sizes : List (Option Nat)) (ρ sgn c : K) (ht : t.WF)
+    (hd : sizes.length = t.length) (_hge : padGE sizes t.shape) (hc : sgn * ρ ^ t.length = c)
+    (idx : List Nat) (hi : idx.length = t.length) :
+    (t.padC sizes ρ sgn).dense idx = if padInside sizes t.shape idx = true then t.dense idx else c := by
+  obtain ⟨hSw, hSs, hSd⟩ := padC_parts t sizes ρ sgn c ht hd hc
+  have hT := WF_pad0 t sizes ht
+  have hTs := shape_pad0 sizes t hd
+  show ((t.pad0 sizes).add _).dense idx = _
+  rw [Tensor.add_dense_eq _ _ hT hSw (by rw [hTs, hSs]) idx, hSd idx hi, dense_pad0 t sizes idx hd hi]
+  by_cases h : padInside sizes t.shape idx = true
+  · simp [h]
+  · simp [h]
+
+/-- padding with a constant returns a well-formed tensor of the padded shape -/
+theorem padC_wf_shape (t : Tensor K) (sizes : List (Option Nat)) (ρ sgn : K) (ht : t.WF)
+    (hd : sizes.length = t.length) (_hge : padGE sizes t.shape) :
+    (t.padC sizes ρ sgn).WF ∧ (t.padC sizes ρ sgn).shape = padShape sizes t.shape := by
+  obtain ⟨hSw, hSs, _⟩ := padC_parts t sizes ρ sgn _ ht hd rfl
+  have hT := WF_pad0 t sizes ht
+  have hTs := shape_pad0 sizes t hd
+  have := Tensor.add_wf_shape_eq (t.pad0 sizes) _ hT hSw (by rw [hTs, hSs])
+  exact ⟨this.1, this.2.trans hTs⟩
+
+/-- `padInside` spelled out: the index is inside the original extent on every padded mode -/
+theorem padInside_spec (sizes : List (Option Nat)) (shape idx : List Nat) (hs : sizes.length = shape.length)
+    (hi : idx.length = shape.length) :
+    padInside sizes shape idx = true ↔ ∀ k n', sizes[k]? = some (some n') → idx.getD k 0 < shape.getD k 0 :=
+  padInside_iff sizes shape idx hs hi
+
+/-- non-vacuity: `exV` (shape [3,2]) padded to [4,2] with fill value `-8 = (-1)·2³`… over `Int` the contract needs a
+    perfect power, so we pad the 2-mode tensor with `c = sgn · ρ²`, `ρ = 3`, `sgn = -1`, i.e. `c = -9` -/
+example : (exV.padC [some 4, Option.none] 3 (-1)).dense [3, 1] = -9 := by
+  have := padC_dense exV [some 4, Option.none] 3 (-1) (-9) exV_wf rfl
+    (by simp [padGE, exV, Tensor.shape, TMode.n, Core.spatial]) (by simp [exV]) [3, 1] rfl
+  simpa [padInside, exV, Tensor.shape, TMode.n, Core.spatial] using this
+
+example : (exV.padC [some 4, Option.none] 3 (-1)).dense [2, 1] = exV.dense [2, 1] := by
+  have := padC_dense exV [some 4, Option.none] 3 (-1) (-9) exV_wf rfl
+    (by simp [padGE, exV, Tensor.shape, TMode.n, Core.spatial]) (by simp [exV]) [2, 1] rfl
+  simpa [padInside, exV, Tensor.shape, TMode.n, Core.spatial] using this
+end padC
 
 end TN.C12
